@@ -109,6 +109,7 @@ func collect(strs map[string]bool, q url.Values) {
 		}
 	}
 }
+
 // collectCfg adds the values of the float fields (the only ones the model asks the oracle about)
 func collectCfg(strs map[string]bool, c driver.VerifConfig) {
 	fl := driver.VerifConfigFields()
